@@ -246,6 +246,16 @@ def exc_matches(raised, handler):
     if handler is None:
         return True
     names = [handler] if isinstance(handler, str) else list(handler)
+    if raised == 'Exception*':
+        # the unnamed failure of an event: some class below Exception that is not PacketError
+        if 'Exception' in names or 'BaseException' in names:
+            return True
+        rest = [n for n in names if n != 'PacketError']
+        if not rest:
+            return False
+        if all(n in ('KeyboardInterrupt', 'SystemExit', 'GeneratorExit') for n in rest):
+            return False
+        return None
     if raised not in EXC_PARENTS and raised != 'BaseException':
         return True if 'BaseException' in names else None
     cur = raised
@@ -506,7 +516,7 @@ class Extractor:
             st.labels.append('return[%s]' % self.c.ret(v))
             return self.sink
         if status[0] == 'raise':
-            st.labels.append('raise[%s]' % status[1])
+            st.labels.append('raise[%s]' % status[1].rstrip('*'))
             return self.sink
         raise Undecided('%s outside a loop' % status[0])
 
@@ -972,7 +982,9 @@ class Extractor:
                     break
             else:
                 which = excs[-1]
-        cls = which.split(':', 1)[1] if ':' in which else 'Exception'
+        cls = which.split(':', 1)[1] if ':' in which else 'Exception*'
+        if cls == 'Exception':
+            cls = 'Exception*'         # "any other failure": its class is not known
         st.labels.append(label + ':' + which)
         raise _Raise(cls)
 
